@@ -407,6 +407,74 @@ fn main() {
                     Err(_) => "ERR".to_string(),
                 }
             }
+            // vecde <element: Int32Type|UUIDType|BooleanType|...> <dims innermost-first, comma list> <cell hex|-|null>:
+            // the (nested) vector type arrives as a custom type string, exactly as on the wire; the cell is decoded dynamically (CqlValue) after type_check
+            "vecde" => {
+                use scylla_cql::frame::response::result::verif_hooks as vr;
+                use scylla_cql_core::deserialize::FrameSlice;
+                use scylla_cql_core::deserialize::value::DeserializeValue;
+                use scylla_cql_core::value::CqlValue;
+                let mut ty = format!("org.apache.cassandra.db.marshal.{}", a[1]);
+                for d in a[2].split(',') {
+                    ty = format!("org.apache.cassandra.db.marshal.VectorType({}, {})", ty, d);
+                }
+                let mut data = vec![0u8, 0];
+                data.extend_from_slice(&(ty.len() as u16).to_be_bytes());
+                data.extend_from_slice(ty.as_bytes());
+                let mut buf = &data[..];
+                match vr::column_type(&mut buf) {
+                    Err(_) => "TYPE-ERR".to_string(),
+                    Ok(t) => {
+                        let cell = if a[3] == "null" { None } else { Some(bytes::Bytes::from(unhex(a[3]))) };
+                        let fs = cell.as_ref().map(FrameSlice::new);
+                        if <CqlValue as DeserializeValue>::type_check(&t).is_err() {
+                            "TYPECK-ERR".to_string()
+                        } else {
+                            // the decode itself comes first: a panic in it is reported as PANIC for the whole command
+                            let r = <CqlValue as DeserializeValue>::deserialize(&t, fs).is_ok();
+                            let size = t.type_size_for_vector();
+                            format!("{} size={:?}", if r { "OK" } else { "ERR" }, size)
+                        }
+                    }
+                }
+            }
+            // vecnth <element> <dims innermost-first, the last one is the iterated vector's> <cell hex|-> <n|next>: VectorIterator<CqlValue>::nth(n) / next()
+            "vecnth" => {
+                use scylla_cql::frame::response::result::verif_hooks as vr;
+                use scylla_cql_core::deserialize::FrameSlice;
+                use scylla_cql_core::deserialize::value::{DeserializeValue, VectorIterator};
+                use scylla_cql_core::value::CqlValue;
+                let mut ty = format!("org.apache.cassandra.db.marshal.{}", a[1]);
+                for d in a[2].split(',') {
+                    ty = format!("org.apache.cassandra.db.marshal.VectorType({}, {})", ty, d);
+                }
+                let mut data = vec![0u8, 0];
+                data.extend_from_slice(&(ty.len() as u16).to_be_bytes());
+                data.extend_from_slice(ty.as_bytes());
+                let mut buf = &data[..];
+                match vr::column_type(&mut buf) {
+                    Err(_) => "TYPE-ERR".to_string(),
+                    Ok(t) => {
+                        let cell = bytes::Bytes::from(unhex(a[3]));
+                        if <VectorIterator<CqlValue> as DeserializeValue>::type_check(&t).is_err() {
+                            "TYPECK-ERR".to_string()
+                        } else {
+                            match <VectorIterator<CqlValue> as DeserializeValue>::deserialize(&t, Some(FrameSlice::new(&cell))) {
+                                Err(_) => "DESER-ERR".to_string(),
+                                Ok(mut it) => {
+                                    let r = if a[4] == "next" { it.next() } else { it.nth(a[4].parse::<usize>().unwrap()) };
+                                    let left = it.size_hint().0;
+                                    match r {
+                                        None => format!("NONE left={}", left),
+                                        Some(Ok(_)) => format!("SOME-OK left={}", left),
+                                        Some(Err(_)) => format!("SOME-ERR left={}", left),
+                                    }
+                                }
+                            }
+                        }
+                    }
+                }
+            }
             // event <body hex|->: EventV2::deserialize, rendered canonically
             "event" => {
                 use scylla_cql::frame::response::event::{EventV2, SchemaChangeEvent, StatusChangeEvent, TopologyChangeEvent};
